@@ -90,8 +90,16 @@ class OutputRecord:
 class EpicsAdapter:
     """An adapter interface for the EpicsIo."""
 
-    interrupt_records: Dict[InputRecord, Callable[[], Any]] = {}
+    interrupt_records: Dict[InputRecord, Callable[[], Any]]
     interrupt: RaiseInterrupt
+
+    def __init__(self) -> None:
+        """Gives every adapter its own table of interrupt records.
+
+        A table shared at class level would make each adapter's after_update refresh the
+        records of every other EPICS adapter in the process.
+        """
+        self.interrupt_records = {}
 
     def link_input_on_interrupt(
         self, record: InputRecord, getter: Callable[[], Any]
